@@ -18,6 +18,7 @@ class Exec:
         s.stats = collections.Counter()
         s.solver_time = 0.0
         s.funcs_run = set()
+        s.deadline = None
         s.models_hit = set()
         import models, models_io
         s.models = models.MODELS
@@ -681,7 +682,9 @@ class Exec:
             if on_path: on_path(s, end)
             if len(samples) < 3 and end == 'complete' and s.concrete is None:
                 mv = s.model_values()
-                samples.append(dict(decisions=[d if isinstance(d, int) else str(d) for d in s.dec][:40], nondet=mv[:40] if mv else mv, events=len(s.events)))
+                samples.append(dict(harness=entry, decisions=[d if isinstance(d, int) else str(d) for d in s.dec][:40], nondet=mv[:40] if mv else mv, events=len(s.events)))
+            if s.deadline is not None and time.time() > s.deadline and s.save:
+                inconclusive.append(dict(msg='time budget exhausted with %d pending path(s) in this job' % len(s.save), dec=[], stack=[])); break
             if max_paths is not None and npaths >= max_paths and s.save:
                 inconclusive.append(dict(msg='path budget %d exhausted with %d pending' % (max_paths, len(s.save)), dec=[], stack=[])); break
             if not s.save: break
